@@ -117,6 +117,13 @@ class LocalInference:
             mu = model.belief_propagation(theta)
             if callback is not None:
                 callback(mu)
+
+        # the marginals returned have not been compared with the previous loss yet (with few iterations none has)
+        if iters <= 50 and self._marginal_loss(mu)[0] > prev_l:
+            if self.log: print('Reducing learning rate and restarting', alpha/2)
+            model.potentials = theta0
+            model.messages = messages0
+            return self.mirror_descent_auto(alpha/2, iters, callback)
         return l, theta, mu
 
     def mirror_descent(self, measurements, total=None, initial_alpha=10.0, callback=None):
